@@ -25,7 +25,7 @@ from worlds.w_stack import CLIENT_ID_KEY, DEADLINE_KEY, RES
 NEUTRAL = ('TimeoutError', 'FailedFastError', 'NoMembersError', 'ClientError', 'EOFError',
            'ChannelConcurrencyError', 'ServiceClosedError', 'MaxWaitersError', 'OSError',
            'ConnectionResetError', 'BrokenPipeError', 'ConnectionRefusedError', 'Exception',
-           'GreenletExit', 'Timeout')
+           'GreenletExit', 'Timeout', 'OSTimeoutError')
 DECODE_ERRS = ('KeyError', 'error', 'TypeError', 'ValueError', 'AttributeError', 'UnicodeDecodeError',
                'UnicodeEncodeError', 'TProtocolException', 'IndexError', 'TTransportException',
                'OverflowError', 'AssertionError', 'NotImplementedError')
@@ -45,6 +45,7 @@ class ScriptedServerSet(ServerSetProvider):
     self.queue = Queue()
     self.worker = None
     self.closed = False
+    self.busy = False
     self.delivered = []
 
   def Initialize(self, on_join, on_leave):
@@ -69,10 +70,14 @@ class ScriptedServerSet(ServerSetProvider):
   def _work(self):
     while True:
       kind, m = self.queue.get()
-      if kind == 'join':
-        self.on_join(m)
-      else:
-        self.on_leave(m)
+      self.busy = True
+      try:
+        if kind == 'join':
+          self.on_join(m)
+        else:
+          self.on_leave(m)
+      finally:
+        self.busy = False
       self.delivered.append((CLOCK.now, kind, m))
 
   def join(self, m):
@@ -210,6 +215,8 @@ class StackWorld(object):
 
         def AsyncProcessRequest(self, sink_stack, msg, stream, headers):
           cid = srv.call_id_of(None, getattr(msg, 'args', None))
+          if cid is None and not getattr(msg, 'args', None):
+            cid = getattr(world, 'noarg_call_id', None)
           op = world.specs.get(cid)
           if op and op.get('props'):
             for k, v in op['props'].items():
@@ -480,6 +487,11 @@ class StackWorld(object):
     else:
       args = (arg,)
     kwargs = {}
+    if m == 'whoami':
+      # a method without arguments (the one such call of the scenario)
+      args = ()
+      self.noarg_call_id = cid
+      REC.probe('call_without_arguments')
     if m == 'join':
       # further arguments, partly falsy, some or all of them passed by keyword
       j = op['join']
@@ -503,6 +515,10 @@ class StackWorld(object):
         idle = list(getattr(lb, '_idle_endpoints', ()))
       except AttributeError:
         nodes, idle = [], [None]
+      ss = self.serverset
+      if ss is not None and (not ss.queue.empty() or ss.busy):
+        # a membership change is being delivered in this very instant
+        nodes = []
       if nodes and not idle:
         # "down" as the resurrector itself knows it (it has dropped its sink or
         # raised its fault signal); in the instant in which a pool closes itself
@@ -780,7 +796,7 @@ class StackWorld(object):
                   {'kind': K, 'stack': self.stack})
 
   def expected_value(self, c, r, K):
-    arg = c.args[0]
+    arg = c.args[0] if c.args else '%s|' % c.id
     if c.method in ('poke', 'guard'):
       return None
     if K == 'empty':
@@ -990,6 +1006,10 @@ class StackWorld(object):
                           key, inside[-1] - EPOCH, t1 - EPOCH, mx))
       # (c) recovery: reachable from heal time to the end, traffic continues
       heal = self.heal_times.get(i)
+      if heal is None and i in (self.scn.get('c09') or {}).get('always_up', ()) and not self.mode_log.get(i):
+        # reachable from the start; only its first connection was made to fail
+        heal = (self.t_build, 'up')
+        REC.probe('first_connection_died_in_handshake')
       if heal is None or self.closed_at is not None or i not in self.current_members:
         continue
       heal, prev_mode = heal
